@@ -74,6 +74,18 @@ def answer_sites(arm_body, arm_node):
         stmt = n
         while not isinstance(stmt, ast.stmt):
             stmt = stmt._parent
+        if isinstance(val, ast.Name):
+            # the answer is a local that several statements assign (`degree = ..` in the arms, one append at the end): which
+            # value it carries at this site is a matter of data flow, not of the arm the site stands in
+            fn_ = stmt
+            while fn_ is not None and not isinstance(fn_, (ast.FunctionDef, ast.AsyncFunctionDef)):
+                fn_ = getattr(fn_, "_parent", None)
+            if fn_ is not None:
+                stores = [x for x in ast.walk(fn_) if isinstance(x, (ast.Assign, ast.AnnAssign, ast.AugAssign)) and any(isinstance(t, ast.Name) and t.id == val.id for t in (x.targets if isinstance(x, ast.Assign) else [x.target])) and getattr(x, "value", None) is not None]
+                arm_ids = {id(y) for b_ in arm_body for y in ast.walk(b_)}
+                crossing = [x for x in stores if id(x) not in arm_ids]
+                if len({src(x.value) for x in stores}) > 1 and crossing and arm_node is None:
+                    raise AnalysisError(f"{fn_.name}: the answer at line {stmt.lineno} is the local `{val.id}`, assigned in {len(stores)} places: the arms do not answer where they stand, so the per-arm soundness argument does not apply to this shape")
         gs = [(t, p) for t, p in dominating_guards(stmt, stop=None) if _inside(t, arm_body)]
         gs += [(t, p) for t, p in preceding_exit_guards(stmt) if _inside(t, arm_body)]
 
@@ -591,6 +603,8 @@ def _power_by_scenario(prog, rep, fi):
                     env = state["env"]
                     if isinstance(st, ast.Assign) and len(st.targets) == 1 and isinstance(st.targets[0], ast.Name):
                         env[st.targets[0].id] = w.value(st.value, env)
+                    elif isinstance(st, ast.AnnAssign) and isinstance(st.target, ast.Name) and st.value is not None:
+                        env[st.target.id] = w.value(st.value, env)
                     elif isinstance(st, ast.Assign) and isinstance(st.targets[0], ast.Tuple):
                         for e in st.targets[0].elts:
                             if isinstance(e, ast.Name):
@@ -598,6 +612,9 @@ def _power_by_scenario(prog, rep, fi):
                     for c in (ast.walk(st) if isinstance(st, ast.Expr) else []):
                         if isinstance(c, ast.Call) and isinstance(c.func, ast.Attribute) and c.func.attr == "append" and src(c.func.value) == "result_stack" and c.args:
                             v = w.value(c.args[0], env)
+                            if isinstance(c.args[0], ast.Name) and isinstance(v, ast.Name) and v.id == c.args[0].id and v.id not in env:
+                                state["answers"].add("unknown:" + v.id)      # a local this walk has no value for
+                                continue
                             # a popped child degree is taken to be finite (the child is polynomial)
                             state["answers"].add("None" if is_none_node(v) else "finite:" + src(v)[:40])
 
@@ -614,6 +631,10 @@ def _power_by_scenario(prog, rep, fi):
         return False
     for label, _sc in POWER_SCENARIOS[:-1]:
         fin = sorted(a for a in results[label] if a.startswith("finite"))
+        unk = sorted(a for a in results[label] if a.startswith("unknown"))
+        if unk and not fin:
+            rep.undecided(f"{fi.name}[BinaryOp **]: with {label} the answer is the local `{unk[0][8:]}`, whose value the scenario walk does not follow")
+            continue
         # child degrees that are None make every arm answer None; a finite answer here means the guard is missing
         rep.ob("R04.1", f"{fi.name}[BinaryOp **]", not fin, f"{label}: the answer is None" if not fin else f"with {label} the analyser still answers a finite degree (`{fin[0][7:]}`): a non-polynomial term is classified polynomial", loc=fi.loc, detail=f"power-scenario:{label.split('(')[0].strip()}", robust=True)
     return True
